@@ -85,14 +85,14 @@ def replay_driver():
     return _replay_bin[0]
 
 
-def make_replay(op, T, U=None):
+def make_replay(op, T, U=None, side=None):
     def replay(lead, inputs, obs):
         b = replay_driver()
         a_ = inputs.get('vp_in_a')
         b_ = inputs.get('vp_in_b', '0')
         if a_ is None:
             return False, 'no concrete operands in the verifier trace', ''
-        args = [b, op, T, U or '-', str(a_), str(b_)]
+        args = [b, op, T, U or '-', str(a_), str(b_)] + ([side] if side else [])
         p = subprocess.run(args, capture_output=True, text=True)
         return p.returncode != 0, (p.stdout + p.stderr)[-2000:], ' '.join(args)
     return replay
@@ -127,6 +127,14 @@ void harness(void) {
                    group='C17.%s.%s' % (op, T))
 
 
+def MIXED_SUBST(sym):
+    """written as found: SafeInt<Tn>(x) is the explicit range-checked converting constructor (contract vp_ctor); `SafeInt<Tn> y = x;` is
+    copy-initialisation, which can only use the implicit SafeInt(T) constructor after a plain conversion of x to T; the operator between two
+    SafeInt operands is vp_op"""
+    return [(r'SafeInt<T[12]>\((\w+)\)', r'vp_ctor(\1)', -1), (r'SafeInt<T[12]> (\w+) = (\w+);', r'T \1 = (T)(\2);', -1),
+            (r'return ([\w()]+) %s ([\w()]+);' % sym, r'return vp_op(\1, \2);', 1)]
+
+
 def mixed_harness(op, T, U, left):
     """SafeInt<T1> op T2  /  T1 op SafeInt<T2>: one-line wrappers = ctor + op, verified against
     the contracts of ctor and op (replaced), i.e. modularly."""
@@ -152,7 +160,7 @@ T vp_op(T a, T b) { g_op_a = a; g_op_b = b; g_op_calls++; g_op_ret = NONDET_T();
         fn = Fn(SAFEINT, r'inline SafeInt<T1> operator%s\(SafeInt<T1> a, T2 b\)' % sym,
                 'T vp_mixed(T a, U b)',
                 contract=post,
-                subst=[(r'a %s SafeInt<T1>\(b\)' % sym, 'vp_op(a, vp_ctor(b))', 1)],
+                subst=MIXED_SUBST(sym),
                 label='mp::operator%s(SafeInt<T1>,T2)' % csym, inst='T1=%s,T2=%s' % (t['c'], u['c']), nmatches=1)
         call = 'T a = %s(); U b = %s(); vp_in_a = a; vp_in_b = b; vp_mixed(a, b);' % (t['nondet'], u['nondet'])
         decl = 'T vp_in_a; U vp_in_b;'
@@ -160,13 +168,14 @@ T vp_op(T a, T b) { g_op_a = a; g_op_b = b; g_op_calls++; g_op_ret = NONDET_T();
         fn = Fn(SAFEINT, r'inline SafeInt<T2> operator%s\(T1 a, SafeInt<T2> b\)' % sym,
                 'T vp_mixed(U a, T b)',
                 contract=post,
-                subst=[(r'SafeInt<T2>\(a\) %s b' % sym, 'vp_op(vp_ctor(a), b)', 1)],
+                subst=MIXED_SUBST(sym),
                 label='mp::operator%s(T1,SafeInt<T2>)' % csym, inst='T2=%s,T1=%s' % (t['c'], u['c']), nmatches=1)
         call = 'U a = %s(); T b = %s(); vp_in_a = a; vp_in_b = b; vp_mixed(a, b);' % (u['nondet'], t['nondet'])
         decl = 'U vp_in_a; T vp_in_b;'
-    parts += [fn, '%s\nvoid harness(void) { vp_one = 1; g_op_calls = 0; %s VP_REACH("normal return"); }\n' % (decl, call)]
+    # the unreachable call keeps vp_ctor in the program when the operator under test does not use the checked constructor (DFCC insists that a replaced function exists)
+    parts += [fn, '%s\nint g_never;\nvoid harness(void) { vp_one = 1; g_op_calls = 0; g_never = 0; if (g_never) (void)vp_ctor((U)0); %s VP_REACH("normal return"); }\n' % (decl, call)]
     return Harness('C17.%s.mixed%s.%s.%s' % (op, 'L' if left else 'R', T, U), 'C17', parts, enforce='vp_mixed',
-                   replace=['vp_ctor'], inputs=['vp_in_a', 'vp_in_b'],
+                   replace=['vp_ctor'], inputs=['vp_in_a', 'vp_in_b'], replay=make_replay(op, T, U, 'L' if left else 'R'),
                    stubs=[], note='modular: uses the contracts of the converting constructor and of operator%s' % csym)
 
 
